@@ -268,7 +268,9 @@ func inRange(ip net.IP, CIDRs []string) bool {
 		cidr := CIDRs[i]
 		_, network, err := net.ParseCIDR(cidr)
 		if err != nil {
-			return false
+			// An entry that is not a CIDR names no range: skip it, the
+			// entries after it still apply.
+			continue
 		}
 		if network.Contains(ip) {
 			return true
